@@ -1,20 +1,36 @@
 #!/usr/bin/env python3
-"""apply a seeded change to /repo, run the given checks, undo it. usage: run_seeded.py <seeded-id> <PROP> [<PROP>...]  (tier via VERIF_TIER)"""
+"""Run checks against a seeded change. usage: run_seeded.py [--in-repo] <seeded-id> <PROP> [<PROP>...]
+default: the change is applied to a scratch git worktree of /repo and the checks read it through VERIF_REPO (nothing in /repo is
+touched, so background runs against /repo are not disturbed); --in-repo: git -C /repo apply, check, git checkout (as in the brief)."""
 import sys, os, subprocess, json, time
-sid = sys.argv[1]; props = sys.argv[2:]
+a = sys.argv[1:]
+in_repo = '--in-repo' in a
+a = [x for x in a if x != '--in-repo']
+sid = a[0]; props = a[1:]
 d = '/verif/seeded/' + sid
 patch = d + '/patch.diff'
-assert subprocess.run(['git', '-C', '/repo', 'status', '--porcelain', '--untracked-files=no'], capture_output=True, text=True).stdout.strip() == '', '/repo not clean'
-subprocess.run(['git', '-C', '/repo', 'apply', patch], check=True)
+env = dict(os.environ, VERIF_JOBS=os.environ.get('VERIF_JOBS', '4'))
+if in_repo:
+    assert subprocess.run(['git', '-C', '/repo', 'status', '--porcelain', '--untracked-files=no'], capture_output=True, text=True).stdout.strip() == '', '/repo not clean'
+    subprocess.run(['git', '-C', '/repo', 'apply', patch], check=True)
+else:
+    wt = '/tmp/mutrepo_' + sid
+    subprocess.run(['git', '-C', '/repo', 'worktree', 'add', '-q', '--detach', wt, 'HEAD'], check=True)
+    subprocess.run(['git', '-C', wt, 'apply', patch], check=True)
+    env['VERIF_REPO'] = wt
 res = {}
 try:
     for p in props:
         t0 = time.time()
-        r = subprocess.run(['./check', p], cwd='/verif', capture_output=True, text=True, env=dict(os.environ, VERIF_JOBS=os.environ.get('VERIF_JOBS', '4')))
+        r = subprocess.run(['./check', p], cwd='/verif', capture_output=True, text=True, env=env)
         viol = [l for l in r.stdout.split('\n') if l.startswith('VIOLATION')]
         cex = [l.strip() for l in r.stdout.split('\n') if l.strip().startswith('counterexample')][:3]
-        res[p] = {'exit': r.returncode, 'violations': len(viol), 'first_counterexamples': cex, 'wall_s': round(time.time() - t0, 1)}
-        print(p, 'exit', r.returncode, 'violations', len(viol), cex[:1], flush=True)
+        inc = [l.strip()[:200] for l in r.stdout.split('\n') if l.startswith('INCONCLUSIVE')][:2]
+        res[p] = {'exit': r.returncode, 'violations': len(viol), 'first_counterexamples': cex, 'inconclusive': inc, 'wall_s': round(time.time() - t0, 1)}
+        print(p, 'exit', r.returncode, 'violations', len(viol), (cex or inc)[:1], flush=True)
 finally:
-    subprocess.run(['git', '-C', '/repo', 'checkout', '--', '.'], check=True)
-json.dump(res, open(d + '/check_results.json', 'w'), indent=1)
+    if in_repo: subprocess.run(['git', '-C', '/repo', 'checkout', '--', '.'], check=True)
+    else: subprocess.run(['git', '-C', '/repo', 'worktree', 'remove', '--force', wt])
+old = json.load(open(d + '/check_results.json')) if os.path.exists(d + '/check_results.json') else {}
+old.update(res)
+json.dump(old, open(d + '/check_results.json', 'w'), indent=1)
